@@ -8,7 +8,9 @@ RULE = ("random call sequences (fingerprint_tcp/mtu/uptime, fingerprint_http, im
         "ReceiveBuffer payload buffers (incl. one with a consumed prefix), with before/after snapshots around EVERY call of: "
         "bytes(packet), command(), the explicit-field map of every layer and the identity / parent links of its layer objects (the returned packet must share no layer with its input, and edits to it must not reach the input), buffer bytes/length/search cursors, and a deep dump of "
         "every database record, label and signature; non-trivial = sequence with >= 1 impersonation by label and >= 1 HTTP call")
-ASSUMPTIONS = ["the Coq side is a frame lemma over a heap model of the calls (thin); the decisive evidence is this monitor"]
+ASSUMPTIONS = ["the Coq side is a frame lemma over a heap model of the calls; which objects each public call may write is RE-DERIVED from /repo's source on every run "
+               "(translate/eff2coq.py) and proved to agree with that model (Gen/GenEffP.v); what Scapy / h11 do inside the operations assumed pure is covered by this monitor only"]
+GEN_TIE = ["eff"]     # a may-write effect analysis of ALL pyp0f modules, regenerated on every run; Gen/GenEffP.v: the derived summaries of the public entry points agree with Model/Frame.v (gen_model_agrees, C12_translated_frame)
 EXHAUSTIVE = {}
 
 generate_base = c16.generate
